@@ -183,7 +183,7 @@ Definition is_map_kind (kd : mkind) : bool := match kd with KMapSorted | KMapOrd
 (* vectors *)
 Inductive vkind := KArray | KAot.
 Inductive vpred := VLt (n : Z) | VOdd | VAll | VNo.
-Inductive vcmp := VAsc | VDesc.
+Inductive vcmp := VAsc | VDesc | VMod3.   (* VMod3: compare `x mod 3` — a comparator with many ties *)
 Inductive vop :=
 | VPush (z : Z) | VPushF (z : Z)
 | VIns (i : nat) (z : Z) | VInsF (i : nat) (z : Z)
@@ -206,7 +206,7 @@ Definition vpred_eval (f : vpred) (z : Z) : bool :=
   | VNo => false
   end.
 Definition vcmp_le (c : vcmp) (a b : Z) : bool :=
-  match c with VAsc => (a <=? b)%Z | VDesc => (b <=? a)%Z end.
+  match c with VAsc => (a <=? b)%Z | VDesc => (b <=? a)%Z | VMod3 => (a mod 3 <=? b mod 3)%Z end.
 
 Definition vavail (kd : vkind) (o : vop) : bool :=
   match kd with
